@@ -27,8 +27,11 @@ def getHashForOID : DigestOID → Option Hash
 inductive EncOID | sm3WithSM2 | dsaSM2 | sha1WithRSA | sha256WithRSA | rsaEncryption | other
 deriving DecidableEq, Repr
 
+/-- (after the repair: `oidDSASM2` = 1.2.156.10197.1.301.1, the signature algorithm GM/T 0010 pairs with the SM3
+    digest, is accepted under SM3; before, it was known only under SHA-256) -/
 def getSignatureAlgorithmByHash : Hash → EncOID → Option SigAlg
   | .sm3, .sm3WithSM2 => some .sm2WithSM3
+  | .sm3, .dsaSM2 => some .sm2WithSM3
   | .sha256, .dsaSM2 => some .sm2WithSHA256
   | .sha256, .sha256WithRSA => some .sha256WithRSA
   | .sha256, .rsaEncryption => some .sha256WithRSA
